@@ -477,6 +477,19 @@ class Guards:
             m_ = re.match(r"^(!?)\((.*)::insert\((.*)\)\)$", a)
             if m_ and ("HashSet" in m_.group(2) or "<T, S, A>" in m_.group(2) or "BTreeSet" in m_.group(2) or "hash::set" in m_.group(2)):
                 out.append("%s(%s::contains(%s))" % ("!" if m_.group(1) == "" else "", m_.group(2), m_.group(3)))
+        # `match a.cmp(&b) { Less => .., Equal => .., Greater => .. }` on integers is the comparison spelled out
+        for a in list(out):
+            m_ = re.match(r"^(?:Ord for (?:usize|u64|u32|u16|u8|i64|i32)>::cmp|(?:usize|u64|u32|u16|u8|i64|i32)::cmp)\((.*)\) is (not )?(Less|Equal|Greater)$", a)
+            if not m_:
+                continue
+            ps_ = _split_top(m_.group(1))
+            if len(ps_) != 2:
+                continue
+            x_, y_ = ps_
+            op_ = {("", "Less"): ("Lt", "Gt"), ("", "Equal"): ("Eq", "Eq"), ("", "Greater"): ("Gt", "Lt"),
+                   ("not ", "Less"): ("Ge", "Le"), ("not ", "Equal"): ("Ne", "Ne"), ("not ", "Greater"): ("Le", "Ge")}[(m_.group(2) or "", m_.group(3))]
+            out.append("(%s(%s,%s))" % (op_[0], x_, y_))
+            out.append("(%s(%s,%s))" % (op_[1], y_, x_))
         # x > max(a, b) implies x > a and x > b; x < min(a, b) likewise (and the non-strict forms)
         more = []
         for a in out:
